@@ -812,7 +812,7 @@ def c10_phases(ctx):
     groups = []
     for ai, alg in enumerate(ALGS):
         n = N_OF[alg]
-        w = [4, 4, 2, 4, 8, 4][ai]
+        w = [4, 4, 8, 4, 2, 4][ai]
         params = [(w, 5)] if ai % 2 == 0 else [(w, 5), (4, 2)]
         full = aux_full_len(alg, 5)
         sd = seed_hex("c10/%s" % alg, alg)
